@@ -11,6 +11,7 @@ import (
 	"strings"
 	"testing"
 	"unicode"
+	"unicode/utf8"
 
 	"pgregory.net/rapid"
 
@@ -56,6 +57,10 @@ func build(c Case) (pub.Tangible, error) {
 			switch a.Broken {
 			case "no-url-no-name":
 				list = append(list, m)
+				continue
+			case "not-a-link":
+				// not an attachment servitor can show at all: the whole list fails to load
+				list = append(list, []any{"a bare string", map[string]any{"type": "PropertyValue", "name": "x", "value": "y"}, map[string]any{"name": "no type"}, 42}[a.ID%4])
 				continue
 			case "name-not-a-string":
 				m["name"] = 7
@@ -174,14 +179,25 @@ func check(c Case) vrep.Result {
 		return vrep.Fail("harness: could not build item: %v", err)
 	}
 	targets := map[int]string{}
+	asShown := map[int]bool{}
 	for _, l := range c.Doc.Links {
 		targets[l.ID] = l.Target
+		asShown[l.ID] = l.AsShown
 	}
 	// A member whose label cannot be determined is shown as an error text carrying its number (it occupies one:
 	// numbers are positions): the number must be there, without a label, and open the member's own target if it has
 	// one (or nothing) - never another link.
 	brokenAt := map[int]Att{}
-	for i, a := range c.Atts {
+	atts := c.Atts
+	for _, a := range c.Atts {
+		if a.Broken == "not-a-link" {
+			// the attachment list as a whole fails to load: an error text, no attachment has a number or can be opened
+			atts = nil
+			classes = append(classes, "attachment-list-fails-to-load")
+			break
+		}
+	}
+	for i, a := range atts {
 		if a.Broken != "" {
 			brokenAt[len(c.Doc.Links)+i+1] = a
 			continue
@@ -191,7 +207,7 @@ func check(c Case) vrep.Result {
 	if len(brokenAt) > 0 {
 		classes = append(classes, "broken-attachment-member")
 	}
-	N := len(c.Doc.Links) + len(c.Atts)
+	N := len(c.Doc.Links) + len(atts)
 	rendered := item.String(c.Width)
 	bound, err := bind(rendered)
 	if err != nil {
@@ -222,11 +238,22 @@ func check(c Case) vrep.Result {
 		if !present {
 			return vrep.Result{Classes: classes, Err: fmt.Errorf("number %d is shown for %s but opens nothing", k, vgen.Label(id))}
 		}
+		if asShown[id] {
+			// an address followed by punctuation: what is opened is what is shown before the number
+			classes = append(classes, "address-followed-by-punctuation")
+			if shown, whole := shownBefore(rendered, k, targets[id]); whole && link != shown {
+				return vrep.Result{Classes: classes, Err: fmt.Errorf("number %d stands next to the address %q but opens %q\nrendering:\n%s", k, shown, link, plainOf(rendered))}
+			}
+			if !strings.HasPrefix(link, targets[id]) {
+				return vrep.Result{Classes: classes, Err: fmt.Errorf("number %d is shown next to %s (address %s…) but opens %s", k, vgen.Label(id), targets[id], link)}
+			}
+			continue
+		}
 		if link != targets[id] {
 			return vrep.Result{Classes: classes, Err: fmt.Errorf("number %d is shown next to %s (target %s) but opens %s\nrendering:\n%s", k, vgen.Label(id), targets[id], link, plainOf(rendered))}
 		}
 	}
-	outside := []int{N + 1, N + 2, 1000000000, math.MaxInt, math.MinInt}
+	outside := []int{N + 1, N + 2, N + 3, N + 4, N + 5, 1000000000, math.MaxInt, math.MinInt}
 	if !vrep.Excluded("selectlink-nonpositive") {
 		outside = append(outside, 0, -1)
 	}
@@ -254,6 +281,56 @@ func check(c Case) vrep.Result {
 	classes = append(classes, fmt.Sprintf("N:%d", imin(N, 6)))
 	nontrivial := N >= 2 && (c.Doc.Nested || len(c.Atts) > 0 || c.Width < longest+4)
 	return vrep.Result{Classes: classes, Nontrivial: nontrivial}
+}
+
+// shownBefore returns the run of non-blank characters that stands directly before the number k in the rendering;
+// whole says whether that run is the complete address (it was not broken by wrapping).
+func shownBefore(rendered string, k int, address string) (string, bool) {
+	p, err := vorc.Parse(rendered)
+	if err != nil {
+		return "", false
+	}
+	plain := vorc.Plain(p.Cells)
+	super := vgen.Superscript(k)
+	at := -1
+	for from := 0; ; {
+		i := strings.Index(plain[from:], super)
+		if i < 0 {
+			break
+		}
+		i += from
+		end := i + len(super)
+		// not part of a longer number
+		nextIsSuper, prevIsSuper := false, false
+		for _, r := range plain[end:] {
+			nextIsSuper = strings.ContainsRune("⁰¹²³⁴⁵⁶⁷⁸⁹", r)
+			break
+		}
+		for j := i; j > 0; {
+			r, size := utf8.DecodeLastRuneInString(plain[:j])
+			prevIsSuper = strings.ContainsRune("⁰¹²³⁴⁵⁶⁷⁸⁹", r)
+			_ = size
+			break
+		}
+		if !nextIsSuper && !prevIsSuper {
+			at = i
+			break
+		}
+		from = end
+	}
+	if at < 0 {
+		return "", false
+	}
+	start := at
+	for start > 0 {
+		r, size := utf8.DecodeLastRuneInString(plain[:start])
+		if unicode.IsSpace(r) {
+			break
+		}
+		start -= size
+	}
+	shown := plain[start:at]
+	return shown, strings.HasPrefix(shown, address)
 }
 
 func imin(a, b int) int {
@@ -298,7 +375,7 @@ func gen(t *rapid.T) Case {
 				Named:     rapid.Bool().Draw(t, "named"),
 				MediaType: rapid.SampledFrom([]string{"", "image/png", "video/mp4", "text/html; charset=utf-8"}).Draw(t, "amt")})
 			if rapid.IntRange(0, 7).Draw(t, "brokenatt") == 0 {
-				c.Atts[len(c.Atts)-1].Broken = rapid.SampledFrom([]string{"no-url-no-name", "name-not-a-string"}).Draw(t, "brokenkind")
+				c.Atts[len(c.Atts)-1].Broken = rapid.SampledFrom([]string{"no-url-no-name", "name-not-a-string", "not-a-link"}).Draw(t, "brokenkind")
 			}
 		}
 	}
